@@ -74,6 +74,10 @@ type C19Case struct {
 	TCP       bool   `json:"tcp"`    // loopback TCP instead of the in-memory duplex
 	Ping      bool   `json:"ping"`   // also perform a status ping (TCP)
 	Chunk     int    `json:"chunk"`
+	// Resume: after HandleGame stopped with the failing handler's error the caller treats it as non-fatal and calls
+	// HandleGame again (the library's own examples do). Packets that arrive after the failed packet (and after the
+	// bundle it was part of) must then be dispatched as always - and nothing that was already handled comes back.
+	Resume bool `json:"resume,omitempty"`
 }
 
 // ---- server side harness ----------------------------------------------------------------------------
@@ -324,9 +328,22 @@ func c19Check(c C19Case) *pbt.Violation {
 			defer mu.Unlock()
 			// which delivered packet is this? handlers see packets in delivery order
 			pi := counts[hi]
-			// advance to the next delivered packet this handler is registered for
-			for pi < len(delivered) && !(c.Handlers[hi].Generic || c.Handlers[hi].ID == delivered[pi].ID) {
-				pi++
+			if c.Resume {
+				// after a resumed dispatch a handler no longer sees every packet: identify it by content
+				// (the generator keeps the delivered packets pairwise distinct in this mode)
+				pi = len(delivered)
+				for j := range delivered {
+					if p.ID == delivered[j].ID && bytes.Equal(p.Data, delivered[j].data()) {
+						pi = j
+						break
+					}
+				}
+				counts[hi] = pi
+			} else {
+				// advance to the next delivered packet this handler is registered for
+				for pi < len(delivered) && !(c.Handlers[hi].Generic || c.Handlers[hi].ID == delivered[pi].ID) {
+					pi++
+				}
 			}
 			counts[hi] = pi + 1
 			if pi < len(delivered) && (p.ID != delivered[pi].ID || !bytes.Equal(p.Data, delivered[pi].data())) {
@@ -442,6 +459,39 @@ func c19Check(c C19Case) *pbt.Violation {
 			return pbt.V("c19.play.toserver.content", "packets arrive intact and in order (bot -> server)", "packet #%d: got id %d/%d bytes, want id %d/%d bytes (threshold %d)", i, acc.recv[i].ID, len(acc.recv[i].Data), q.ID, q.Len, c.Threshold)
 		}
 	}
+	if c.Resume && c.FailAt >= 0 && c.FailAt < len(c.expectedCallsAll()) {
+		var phe bot.PacketHandlerError
+		if !errors.As(hgErr, &phe) || !errors.Is(hgErr, errC19Handler) {
+			return pbt.V("c19.dispatch.error", "dispatch stops with the failing handler's error", "HandleGame returned %v, want a PacketHandlerError wrapping the handler's error", hgErr)
+		}
+		again := make(chan error, 1)
+		go func() { again <- client.HandleGame() }()
+		select {
+		case <-again: // the server has hung up after its last packet: end of stream
+		case <-time.After(40 * time.Second):
+			return pbt.V("c19.resume.stalled", "packets sent afterwards arrive and are dispatched", "HandleGame, called again after a handler error, had not reached the end of the stream after 40 s")
+		}
+		mu.Lock()
+		defer mu.Unlock()
+		a, b := c.expectedAfterResume()
+		same := func(x []c19Call) bool {
+			if len(x) != len(log) {
+				return false
+			}
+			for i := range x {
+				if x[i] != log[i] {
+					return false
+				}
+			}
+			return true
+		}
+		if !same(a) && !same(b) {
+			return pbt.V("c19.resume.dispatch", "each received packet is dispatched to its handlers in order, bundled packets together once the closing delimiter arrives (also after an earlier handler error)",
+				"handler failed at call #%d; HandleGame was called again; call log (handler,packet) = %v; expected %v (rest of the failed bundle dropped) or %v (rest of the failed bundle still dispatched); to_client ids %v",
+				c.FailAt, log, a, b, c.toClientIDs())
+		}
+		return nil
+	}
 	mu.Lock()
 	defer mu.Unlock()
 	if len(log) != len(expected) {
@@ -464,6 +514,51 @@ func c19Check(c C19Case) *pbt.Violation {
 		}
 	}
 	return nil
+}
+
+func (c C19Case) toClientIDs() []int32 {
+	var ids []int32
+	for _, p := range c.ToClient {
+		ids = append(ids, p.ID)
+	}
+	return ids
+}
+
+// expectedAfterResume: the call log when HandleGame is called again after the failing handler's error.
+// a: the rest of the failed packet's bundle is dropped; b: it is still dispatched. In both, the handlers of the
+// failed packet that had not run yet are skipped and everything after the failed unit is dispatched as always.
+func (c C19Case) expectedAfterResume() (a, b []c19Call) {
+	all := c.expectedCallsAll()
+	failed := all[c.FailAt].Packet
+	// bundle membership of the delivered packets
+	bundle := []int{}
+	cur, open, nb := -1, false, 0
+	for _, p := range c.ToClient {
+		if p.ID == 0 {
+			open = !open
+			if open {
+				nb++
+				cur = nb
+			} else {
+				cur = -1
+			}
+			continue
+		}
+		bundle = append(bundle, cur)
+	}
+	a = append(a, all[:c.FailAt+1]...)
+	b = append(b, all[:c.FailAt+1]...)
+	for _, call := range all[c.FailAt+1:] {
+		if call.Packet == failed {
+			continue
+		}
+		inFailedBundle := bundle[failed] >= 0 && bundle[call.Packet] == bundle[failed]
+		if !inFailedBundle {
+			a = append(a, call)
+		}
+		b = append(b, call)
+	}
+	return a, b
 }
 
 // expectedCallsAll is the call log without the failure cut.
@@ -542,6 +637,28 @@ func genC19(t *rapid.T) C19Case {
 	}
 	if n := len(c.expectedCalls()); n > 0 && rapid.IntRange(0, 3).Draw(t, "fail") == 2 {
 		c.FailAt = rapid.IntRange(0, n-1).Draw(t, "failat")
+		if !c.TCP && rapid.Bool().Draw(t, "resume") {
+			// the caller goes on after the error; the server hangs up after its last packet so that the
+			// second HandleGame ends; delivered packets are made pairwise distinct
+			c.Resume, c.HangUp = true, true
+			seen := map[string]bool{}
+			for i := range c.ToClient {
+				p := &c.ToClient[i]
+				if p.ID == 0 {
+					continue
+				}
+				if p.Len < 8 {
+					p.Len = 8 + i%5
+				}
+				for seen[fmt.Sprint(p.ID, p.data())] {
+					p.Seed++
+					if p.Seed%3 == 0 {
+						p.Seed++
+					}
+				}
+				seen[fmt.Sprint(p.ID, p.data())] = true
+			}
+		}
 	}
 	return c
 }
@@ -589,7 +706,7 @@ var c19Prop = pbt.Register(pbt.Prop[C19Case]{
 				break
 			}
 		}
-		for k, v := range map[string]bool{"server_hangs_up_after_last_packet": c.HangUp, "client_claims_another_uuid": c.ClaimUUID != "", "refuse": c.Refuse, "tcp": c.TCP, "ping": c.Ping, "handler_fails": c.FailAt >= 0} {
+		for k, v := range map[string]bool{"server_hangs_up_after_last_packet": c.HangUp, "client_claims_another_uuid": c.ClaimUUID != "", "refuse": c.Refuse, "tcp": c.TCP, "ping": c.Ping, "handler_fails": c.FailAt >= 0, "resumed_after_handler_error": c.Resume} {
 			if v {
 				labels = append(labels, k)
 			}
